@@ -350,4 +350,40 @@ theorem fixL002_keeps_tokens (cls : CharClass) (tb : Tables) (hA : AsciiOK cls) 
     rw [this, m1]; simp
   · rw [t3, u3, c1, c2]
 
+
+/-- **the two fixers in sequence** (the order in which the CLI applies them): the text after L001 and then L002 is
+    still read as the same (kind, value) sequence and the same comments -/
+theorem fixL001_then_L002_keeps_tokens (cls : CharClass) (tb : Tables) (hA : AsciiOK cls) (hops : opsNoWS tb = true)
+    (lead : List Piece) (items : List Item2)
+    (hlead : lead.all Piece.ok = true) (hleadT : lead.all Piece.tame = true) (hleadN : sepNorm lead = true)
+    (hok : seqOK cls tb items = true) (htame : tameSeq cls tb items = true)
+    (hsize : 4 * (sepBytes lead ++ flat2 items).length ≤ tb.maxInput) (hcount : items.length ≤ tb.maxTokens) :
+    ∃ toks cs toks' cs', tokenize cls tb (sepBytes lead ++ flat2 items) = .ok toks cs ∧
+      tokenize cls tb (asBytes (Lint.fixL002 (Lint.fixL001 (asChars (sepBytes lead ++ flat2 items))))) = .ok toks' cs' ∧
+      toks'.map Tok.key = toks.map Tok.key ∧ cs'.map Comment.key = cs.map Comment.key := by
+  obtain ⟨items', e1, o1, m1, c1, tm1⟩ := seq_trim cls tb hA hops items hok htame
+  obtain ⟨lead', e2, o2, c2, _, sh2⟩ := sep_trim lead (flat2 items) hlead hleadT hleadN (stopX_of_seqOK cls tb items hok)
+  rw [e1] at e2
+  have hlen : items'.length = items.length := by
+    have := congrArg List.length m1
+    simpa using this
+  have hl1 : (sepBytes lead' ++ flat2 items').length ≤ (sepBytes lead ++ flat2 items).length := by
+    rw [← e2]; exact trimB_length _
+  -- the text after L001, as characters
+  have hchars : Lint.fixL001 (asChars (sepBytes lead ++ flat2 items)) = asChars (sepBytes lead' ++ flat2 items') := by
+    rw [Lint.fixL001_eq_trimC, trimC_asChars, e2]
+  obtain ⟨toks, cs, t1, t2, t3, _, _⟩ := tokenize_spell2 cls tb hA lead items hlead hok (by omega) hcount
+  obtain ⟨toks1, cs1, toks', cs', u1, u2, u3, u4⟩ := fixL002_keeps_tokens cls tb hA hops lead' items' o2
+    (sameShape_tame _ _ sh2 hleadT) o1 tm1 (by omega) (by rw [hlen]; exact hcount)
+  obtain ⟨toksB, csB, v1, v2, v3, _, _⟩ := tokenize_spell2 cls tb hA lead' items' o2 o1 (by omega) (by rw [hlen]; exact hcount)
+  rw [v1] at u1
+  injection u1 with ea eb
+  subst ea; subst eb
+  refine ⟨toks, cs, toks', cs', t1, ?_, ?_, ?_⟩
+  · rw [hchars]; exact u2
+  · rw [u3, v2, t2]
+    have : (items'.map fun it => it.1.key cls tb) = (items'.map (·.1)).map (Lx.key cls tb) := by simp
+    rw [this, m1]; simp
+  · rw [u4, v3, t3, c1, c2]
+
 end GoSQLXModel.Lex
